@@ -1,7 +1,7 @@
 """Error discipline and cache-protocol path rules:
 R-ERRDISC (C12, C13), R-DIRTY, R-FLUSHREACH (C13), R-WINDOW (C06, C12), R-FLUSHFIRST (C06)."""
 from cg import op_local
-from core import Finding, RuleResult, is_io_result_ty, view
+from core import Finding, RuleResult, atoms_match, is_io_result_ty, view
 from facts import callee_name, fmt_place
 
 STREAM = "internal::stream::Stream"
@@ -455,3 +455,83 @@ def poskeep(ctx):
                 res.ok({"function": f.path, "length": vals[0][:60], "window": "cleared on every path"}, nontrivial=True)
     res.floor("window/length stores", n, ctx.table("floors").get("poskeep_sites", 0))
     return res
+
+
+def posatomic(pid):
+    """R-POSATOMIC: a Stream method that moves the handle's position (stores a window offset that is not the current
+    position) does so as its last fallible step: no error exit is reachable after the move.  Otherwise the call
+    reports Err with the position already changed, and the retry on the same handle reads from (or writes at)
+    another place - at the end of the stream it reads nothing and reports Ok."""
+    import re
+    from prov import Prov
+
+    def run(ctx):
+        res = RuleResult("R-POSATOMIC(%s)" % pid, "in every Stream method, after a store that moves the position (a window offset other than offset + cursor) no error exit is reachable")
+        tbl = ctx.table("stream")
+        POSF = [re.compile(x) for x in tbl.get("position_formula", [])]
+        n = 0
+        for f in _stream_methods(ctx):
+            v = view(ctx, f)
+            pr = Prov(f)
+            errs = set(v.all_err_nodes())
+            for node in v.stores_to_field("buf_offset_from_start", STREAM):
+                st = f.blocks[node[1]]["stmts"][node[2]]
+                val = pr._def((node[1], node[2], st), 0, ())
+                vals = [val]
+                m = re.match(r"^var:(\w+)$", val)
+                if m:
+                    names = {nm: l for l, nm in f.debug_names().items()}
+                    l = names.get(m.group(1))
+                    if l is not None:
+                        vals = [pr._def(d, 1, (l,)) for d in pr.defs.get(l, [])]
+                if all(any(rx.search(x) for rx in POSF) for x in vals):
+                    continue        # the window moves, the position does not
+                n += 1
+                after = v.pg.reach_after(node)
+                hit = [e for e in errs if e in after]
+                # a fallible call after the move, whose Result is handed back as it is, is an error exit as well
+                for bb, c in v.calls.items():
+                    t = c.term
+                    if ("t", bb) in after and c.kind == "call" and not t["dest"]["proj"] and f.locals[t["dest"]["local"]]["s"].startswith("std::result::Result<") and "io::Error" in f.locals[t["dest"]["local"]]["s"] \
+                            and not c.name.endswith("as std::ops::Try>::branch") and "FromResidual" not in c.name:
+                        hit.append(("t", bb))
+                key = "R-POSATOMIC/%s" % f.path
+                if hit:
+                    res.fail(Finding(res.rule, key + "/error-after-position-move", "%s moves the handle's position (window offset := %s, line %d) and can still fail afterwards: the caller gets Err with the position already changed, so a retry on the same handle continues elsewhere (at the end of the stream: reads nothing, reports Ok)" % (f.d["name"], vals[0][:80], st["span"]["line"]), f, st["span"]))
+                else:
+                    res.ok({"function": f.path, "moves_position_to": vals[0][:80], "line": st["span"]["line"], "error_exit_after": False}, nontrivial=True)
+        res.floor("position moves in Stream methods", n, ctx.table("floors").get("posatomic_sites", 0))
+        return res
+    return run
+
+
+def buffull(pid):
+    """R-BUFFULL: Stream::write answers a refusal of the window buffer (write_bytes -> None) by writing the window
+    back, starting an empty one and asking again; what the second request returns is the call's result.  That is
+    only a positive count if the buffer refuses when it has NO room at all (cursor at the end and no growth left) -
+    a buffer that refuses whenever the input does not fit entirely refuses the same input again when empty, and the
+    write reports Ok(0) for a non-empty slice (write_all: WriteZero, nothing written)."""
+    from prov import guards as _guards
+
+    def run(ctx):
+        res = RuleResult("R-BUFFULL(%s)" % pid, "StreamBuffer::write_bytes returns None only on a path that established cursor >= buffer length (no room at all)")
+        f = ctx.fx.fns.get("internal::stream_buffer::StreamBuffer::write_bytes")
+        if f is None:
+            res.gone.append("StreamBuffer::write_bytes")
+            return res
+        g = _guards(ctx, f)
+        n = 0
+        for bb, blk in enumerate(f.blocks):
+            if blk["cleanup"]:
+                continue
+            for i, st in enumerate(blk["stmts"]):
+                if st["s"] == "assign" and st["place"]["local"] == 0 and not st["place"]["proj"] and st["rv"]["r"] == "aggregate" and st["rv"].get("variant") == "None":
+                    n += 1
+                    atoms = g.atoms_at(("s", bb, i))
+                    if atoms_match(r"^\((Ge|Eq)\(param:self\.pos,len\(param:self\.data\)\)\)$", atoms):
+                        res.ok({"function": f.path, "line": st["span"]["line"], "refuses_only_when": "pos >= data.len()"}, nontrivial=True)
+                    else:
+                        res.fail(Finding(res.rule, "R-BUFFULL/%s/refuses-with-room-left" % f.path, "write_bytes can return None although the buffer still has room (conditions on the path: %s): Stream::write then flushes, empties the window and asks again - an input that does not fit an empty window is refused again and the write returns Ok(0) for a non-empty slice" % ("; ".join(a[:70] for a in atoms[:4]) or "none"), f, st["span"]))
+        res.floor("refusals of the window buffer", n, ctx.table("floors").get("buffull_sites", 0))
+        return res
+    return run
